@@ -718,6 +718,32 @@ pub fn gen_c11(run: &mut Run, seed: u64, thorough: bool) {
                 i.op(&format!("its.token_address {}", hex::encode(t)), "q");
                 i.op(&format!("its.manager {}", hex::encode(t)), "q");
             }
+            // metadata is taken over EXACTLY as announced: surrounding whitespace, control characters, multi-byte text and
+            // whitespace-only (but non-empty) fields are all representable and must be reported back unchanged
+            let odd: Vec<(&[u8], &[u8], &str)> = vec![
+                (b" Wrapped Ether  ", b"wETH\n", "surrounding-whitespace"),
+                (b"\tTab", b" ", "whitespace-only-symbol"),
+                (b"  ", b"SP", "whitespace-only-name"),
+                ("Tökén-令牌 ".as_bytes(), "Ω ".as_bytes(), "unicode-trailing-space"),
+            ];
+            for (k, (name, sym, label)) in odd.iter().enumerate() {
+                let mut t = [0x91u8; 32];
+                t[1] = k as u8;
+                t[2] = r as u8;
+                let p = deploy_payload(&env, b"avalanche", &t, name, sym, 5, None);
+                i.deliver(&p, &format!("remote-deploy-metadata-{label}"));
+                if let Some(a) = i.op(&format!("its.token_address {}", hex::encode(t)), "q").split(' ').nth(1).map(Addr::parse) {
+                    i.tokens.push(a.clone());
+                    i.op(&format!("tok.meta {}", a.tok()), "q");
+                }
+                // the same metadata through a local deployment
+                let mut salt = [0x92u8; 32];
+                salt[1] = k as u8;
+                salt[2] = r as u8;
+                if let Some((_, a)) = i.deploy(&users[0], &salt, name, sym, 5, 0, None, &users[0].tok(), &format!("deploy-metadata-{label}")) {
+                    i.op(&format!("tok.meta {}", a.tok()), "q");
+                }
+            }
             for (k, minter) in [None, Some(users[2].clone()), Some(its.clone())].into_iter().enumerate() {
                 let mut t = [0x90u8; 32];
                 t[1] = k as u8;
